@@ -172,7 +172,9 @@ def ipStep (m : Pomdp) (pr : VList → VList) (prev : VList) : VList :=
 /-- `h` timesteps (the tolerance test can only stop earlier, i.e. return a prefix) -/
 def ipRun (m : Pomdp) (pr : VList → VList) : Nat → VF
   | 0 => zeroVF m.S
-  | h+1 => ipRun m pr h ++ [ipStep m pr (vlist (ipRun m pr h) h)]
+  | h+1 =>
+    let v := ipRun m pr h
+    v ++ [ipStep m pr (vlist v h)]
 
 /-! ## crossSumBestAtBelief (row form): per observation take the best projection at `b`, add values, copy its link -/
 
@@ -215,7 +217,9 @@ def pbviStep (m : Pomdp) (beliefs : List (Nat → Rat)) (prev : VList) : VList :
 
 def pbviRun (m : Pomdp) (beliefs : List (Nat → Rat)) : Nat → VF
   | 0 => zeroVF m.S
-  | h+1 => pbviRun m beliefs h ++ [pbviStep m beliefs (vlist (pbviRun m beliefs h) ((pbviRun m beliefs h).length - 1))]
+  | h+1 =>
+    let v := pbviRun m beliefs h          -- bound once: the compiled driver must not recompute the prefix three times per level
+    v ++ [pbviStep m beliefs (vlist v (v.length - 1))]
 
 /-! ## PERSEUS::operator(): the belief sweep (belief list = parameter) -/
 
@@ -233,8 +237,9 @@ def perseusStep (m : Pomdp) (beliefs : List (Nat → Rat)) (prev : VList) : VLis
 /-- horizon-0 entry filled with `minReward / (1 - discount)` (any value `v0`) -/
 def perseusRun (m : Pomdp) (beliefs : List (Nat → Rat)) (v0 : Rat) : Nat → VF
   | 0 => [[⟨List.replicate m.S v0, 0, []⟩]]
-  | h+1 => perseusRun m beliefs v0 h ++
-      [perseusStep m beliefs (vlist (perseusRun m beliefs v0 h) ((perseusRun m beliefs v0 h).length - 1))]
+  | h+1 =>
+    let v := perseusRun m beliefs v0 h
+    v ++ [perseusStep m beliefs (vlist v (v.length - 1))]
 
 /-! ## LinearSupport::operator(): corner supports, vertex agenda (vertex enumeration = oracle) -/
 
@@ -317,9 +322,9 @@ def lsStep (m : Pomdp) (tolerance : Rat) (verts1 : VList → List (List Rat)) (v
 def lsRun (m : Pomdp) (tolerance : Rat) (verts1 : VList → List (List Rat)) (verts2 : VEntry → VList → List (List Rat))
     (pop : List LSVertex → Option (LSVertex × List LSVertex)) (fuel : Nat) : Nat → VF
   | 0 => zeroVF m.S
-  | h+1 => lsRun m tolerance verts1 verts2 pop fuel h ++
-      [lsStep m tolerance verts1 verts2 pop fuel
-        (vlist (lsRun m tolerance verts1 verts2 pop fuel h) ((lsRun m tolerance verts1 verts2 pop fuel h).length - 1))]
+  | h+1 =>
+    let v := lsRun m tolerance verts1 verts2 pop fuel h
+    v ++ [lsStep m tolerance verts1 verts2 pop fuel (vlist v (v.length - 1))]
 
 /-! ## Witness::operator(): per-action agenda loop (witness LP = oracle) -/
 
@@ -370,7 +375,8 @@ def witnessStep (m : Pomdp) (wit : VList → List Rat → Option (Nat → Rat)) 
 
 def witnessRun (m : Pomdp) (wit : VList → List Rat → Option (Nat → Rat)) (pr : VList → VList) (fuel : Nat) : Nat → VF
   | 0 => zeroVF m.S
-  | h+1 => witnessRun m wit pr fuel h ++
-      [witnessStep m wit pr fuel (vlist (witnessRun m wit pr fuel h) ((witnessRun m wit pr fuel h).length - 1))]
+  | h+1 =>
+    let v := witnessRun m wit pr fuel h
+    v ++ [witnessStep m wit pr fuel (vlist v (v.length - 1))]
 
 end AITB.Plan
